@@ -1351,6 +1351,7 @@ theorem C08_aux_answer_sys (cid j dl : Nat) (evs : List Ev) :
         | setCfg cfg => simpa only [AnswerBy] using ha
         | crit d => simpa only [AnswerBy] using ha
         | failNext c => simpa only [AnswerBy] using ha
+        | failAfter c kfa => simpa only [AnswerBy] using ha
         | failBind c => simpa only [AnswerBy] using ha
         | syncTimeout => simpa only [AnswerBy] using ha
         | stamp idx weak ld ccb cct => simpa only [AnswerBy] using ha
@@ -1391,6 +1392,9 @@ theorem C08_aux_clock_before_tick (d pt : Nat) (es : List Ev) (hm : MonoFrom d e
       simp only [MonoFrom, evClock, TickGaps] at hm hg
       exact ih d hm hg (by obtain ⟨t, ht⟩ := hex; exact ⟨t, by simpa using ht⟩)
     | failNext c =>
+      simp only [MonoFrom, evClock, TickGaps] at hm hg
+      exact ih d hm hg (by obtain ⟨t, ht⟩ := hex; exact ⟨t, by simpa using ht⟩)
+    | failAfter c kfa =>
       simp only [MonoFrom, evClock, TickGaps] at hm hg
       exact ih d hm hg (by obtain ⟨t, ht⟩ := hex; exact ⟨t, by simpa using ht⟩)
     | failBind c =>
@@ -1490,6 +1494,7 @@ theorem C08_aux_live_sys (cid j T0 : Nat) (evs : List Ev) :
           | setCfg cfg => simp only [MonoFrom, evClock] at hm; exact ⟨_, hm⟩
           | crit x => simp only [MonoFrom, evClock] at hm; exact ⟨_, hm⟩
           | failNext c => simp only [MonoFrom, evClock] at hm; exact ⟨_, hm⟩
+          | failAfter c kfa => simp only [MonoFrom, evClock] at hm; exact ⟨_, hm⟩
           | failBind c => simp only [MonoFrom, evClock] at hm; exact ⟨_, hm⟩
           | syncTimeout => simp only [MonoFrom, evClock] at hm; exact ⟨_, hm⟩
           | stamp idx weak ld ccb cct => simp only [MonoFrom, evClock] at hm; exact ⟨_, hm⟩
@@ -1626,6 +1631,7 @@ theorem C08_aux_answerByB (cid dl : Nat) (es : List Ev) (h : answerByB cid dl es
     | setCfg cfg => exact ih (by simpa only [answerByB] using h)
     | crit d => exact ih (by simpa only [answerByB] using h)
     | failNext c => exact ih (by simpa only [answerByB] using h)
+    | failAfter c kfa => exact ih (by simpa only [answerByB] using h)
     | failBind c => exact ih (by simpa only [answerByB] using h)
     | syncTimeout => exact ih (by simpa only [answerByB] using h)
     | stamp idx weak ld ccb cct => exact ih (by simpa only [answerByB] using h)
@@ -1778,6 +1784,7 @@ theorem C08_aux_armRun_split (now : Nat) (post : List Ev) :
     | setCfg c => exact key false h (fun hb => by cases hb)
     | crit d => exact key false h (fun hb => by cases hb)
     | failNext c => exact key false h (fun hb => by cases hb)
+    | failAfter c kfa => exact key false h (fun hb => by cases hb)
     | failBind c => exact key false h (fun hb => by cases hb)
     | stamp i w ld cb ct => exact key false h (fun hb => by cases hb)
     | reload rnow raddrs routs => exact key false h (fun hb => by cases hb)
@@ -1908,6 +1915,7 @@ theorem C08_aux_answerBy_late (cid dl : Nat) (es : List Ev) (h : AnswerBy cid dl
     | setCfg cfg => exact ih (by simpa only [AnswerBy] using h)
     | crit d => exact ih (by simpa only [AnswerBy] using h)
     | failNext c => exact ih (by simpa only [AnswerBy] using h)
+    | failAfter c kfa => exact ih (by simpa only [AnswerBy] using h)
     | failBind c => exact ih (by simpa only [AnswerBy] using h)
     | syncTimeout => exact ih (by simpa only [AnswerBy] using h)
     | stamp idx weak ld ccb cct => exact ih (by simpa only [AnswerBy] using h)
@@ -1959,6 +1967,7 @@ theorem C08_aux_answer_late (cid j dl : Nat) (evs : List Ev) :
         | setCfg cfg => simpa only [AnswerLate] using ha
         | crit d => simpa only [AnswerLate] using ha
         | failNext c => simpa only [AnswerLate] using ha
+        | failAfter c kfa => simpa only [AnswerLate] using ha
         | failBind c => simpa only [AnswerLate] using ha
         | syncTimeout => simpa only [AnswerLate] using ha
         | stamp idx weak ld ccb cct => simpa only [AnswerLate] using ha
@@ -2043,6 +2052,7 @@ theorem C08_aux_live_late (cid j T0 D : Nat) (evs : List Ev) :
           | setCfg cfg => simp only [MonoFrom, evClock] at hm; exact ⟨_, hm⟩
           | crit x => simp only [MonoFrom, evClock] at hm; exact ⟨_, hm⟩
           | failNext c => simp only [MonoFrom, evClock] at hm; exact ⟨_, hm⟩
+          | failAfter c kfa => simp only [MonoFrom, evClock] at hm; exact ⟨_, hm⟩
           | failBind c => simp only [MonoFrom, evClock] at hm; exact ⟨_, hm⟩
           | syncTimeout => simp only [MonoFrom, evClock] at hm; exact ⟨_, hm⟩
           | stamp idx weak ld ccb cct => simp only [MonoFrom, evClock] at hm; exact ⟨_, hm⟩
@@ -2113,6 +2123,7 @@ theorem C08_aux_answerLateB (cid dl : Nat) (es : List Ev) (h : answerLateB cid d
     | setCfg cfg => exact ih (by simpa only [answerLateB] using h)
     | crit d => exact ih (by simpa only [answerLateB] using h)
     | failNext c => exact ih (by simpa only [answerLateB] using h)
+    | failAfter c kfa => exact ih (by simpa only [answerLateB] using h)
     | failBind c => exact ih (by simpa only [answerLateB] using h)
     | syncTimeout => exact ih (by simpa only [answerLateB] using h)
     | stamp idx weak ld ccb cct => exact ih (by simpa only [answerLateB] using h)
@@ -2386,6 +2397,7 @@ theorem C08_aux_first_answer (cid j dl : Nat) (evs : List Ev) :
         | setCfg cfg => simpa only [AnswerLate] using ha
         | crit d => simpa only [AnswerLate] using ha
         | failNext c => simpa only [AnswerLate] using ha
+        | failAfter c kfa => simpa only [AnswerLate] using ha
         | failBind c => simpa only [AnswerLate] using ha
         | syncTimeout => simpa only [AnswerLate] using ha
         | stamp idx weak ld ccb cct => simpa only [AnswerLate] using ha
@@ -2474,6 +2486,7 @@ theorem C08_aux_first_live (cid j T0 D B : Nat) (evs : List Ev) :
           | setCfg cfg => simp only [MonoFrom, evClock] at hm; exact ⟨_, hm⟩
           | crit x => simp only [MonoFrom, evClock] at hm; exact ⟨_, hm⟩
           | failNext c => simp only [MonoFrom, evClock] at hm; exact ⟨_, hm⟩
+          | failAfter c kfa => simp only [MonoFrom, evClock] at hm; exact ⟨_, hm⟩
           | failBind c => simp only [MonoFrom, evClock] at hm; exact ⟨_, hm⟩
           | syncTimeout => simp only [MonoFrom, evClock] at hm; exact ⟨_, hm⟩
           | stamp idx weak ld ccb cct => simp only [MonoFrom, evClock] at hm; exact ⟨_, hm⟩
@@ -2628,12 +2641,14 @@ registration types — REG_NGP 0x9211, REG2 0x9201, REG3 0x9202, REG_ERR 0x9210 
 is; neither is a reload (`apply_connection_changes` may remove or shift the link the chain follows). -/
 theorem C08_bystander_def (e : Ev) :
     Audit2B.bystander e = true ↔
-      ((∀ t, e ≠ .hk t) ∧ (∀ c, e ≠ .failNext c) ∧ (∀ c, e ≠ .failBind c) ∧ e.isReload = false ∧
+      ((∀ t, e ≠ .hk t) ∧ (∀ c, e ≠ .failNext c) ∧ (∀ c k, e ≠ .failAfter c k) ∧ (∀ c, e ≠ .failBind c) ∧
+       e.isReload = false ∧
        ∀ now c data t, e = .uplink now c data → Codec.getPacketTypeS data = some t →
          t ≠ 37393 ∧ t ≠ 37377 ∧ t ≠ 37378 ∧ t ≠ 37392) := by
   cases e with
   | hk t => simp [Audit2B.bystander, Ev.isReload]
   | failNext c => simp [Audit2B.bystander, Ev.isReload]
+  | failAfter c kfa => simp [Audit2B.bystander, Ev.isReload]
   | failBind c => simp [Audit2B.bystander, Ev.isReload]
   | uplink now c data =>
     simp only [Audit2B.bystander, Audit2B.isRegType]
@@ -2641,7 +2656,8 @@ theorem C08_bystander_def (e : Ev) :
     | none =>
       constructor
       · intro _
-        refine ⟨fun t h => (by cases h), fun c h => (by cases h), fun c h => (by cases h), rfl, ?_⟩
+        refine ⟨fun t h => (by cases h), fun c h => (by cases h), fun c k h => (by cases h), fun c h => (by cases h),
+          rfl, ?_⟩
         intro now' c' data' t' h ht'
         cases h
         rw [ht] at ht'; cases ht'
